@@ -250,6 +250,8 @@ func main() {
 	stmts := append([]string{}, statements...)
 	stmts = append(stmts, exprStatements()...)
 	stmts = append(stmts, longInput(110))
+	// inputs without a statement: the statement loop has nothing to iterate over
+	stmts = append(stmts, "", " \n\t ", "-- only a comment\n", "/* only a comment */", ";", " ; ; ")
 	// a sample of Select.tla's statement forms (every named form, sampled clause combinations, ORDER BY lists,
 	// tails and window specifications)
 	model := gram.FormTexts(run)
@@ -316,6 +318,18 @@ func main() {
 					Case: map[string]any{"entry": e.name, "sql": sql}, Observe: firstN(res0, 300), Expect: firstN(plainRes, 300)})
 			}
 			emit(map[string]any{"ev": "return", "res": r})
+			if n == 0 {
+				// a call that never looks at its context on this input: an already-done context (k = 0) must still be reported
+				for _, ctxErr := range []error{context.Canceled, context.DeadlineExceeded} {
+					c := &cctx{Context: context.Background(), fire: 0, err: ctxErr}
+					res, gotValue, err := e.call(c, sql, parser.NewParser(), newTok())
+					run.Eval(1)
+					if gotValue || !errors.Is(err, ctxErr) {
+						run.Violate(core.Violation{Sig: "done-context-never-polled|" + e.name + "|" + ops.Err(err).Code, Clause: "if the context is already done the call returns no tree and an error that matches the context's error under errors.Is",
+							Case: map[string]any{"entry": e.name, "sql": firstN(sql, 300), "k": 0, "of": 0, "ctx_err": ctxErr.Error()}, Observe: firstN(res+" "+fmt.Sprint(err), 300)})
+					}
+				}
+			}
 			for k := int64(0); k < n; k++ {
 				for _, cerr := range []error{context.Canceled, error(dlErr{}), error(causeErr{})} {
 					ctxErr := cerr
